@@ -10,6 +10,9 @@ from engine.core import Raise_, Return_, PathEnd, Unsupported, ContractMisfit
 from engine.values import V, NONE, PyStr, PyTuple, Obj, ClassRef, FuncRef, ModuleRef, Builtin, BoundMethod
 
 
+_ELEMS = {}
+
+
 class CallMixin:
 
   def ev_Call(self, e):
@@ -369,8 +372,18 @@ class CallMixin:
         return V(s, v.t)  # a copy: no shared origin
       if isinstance(s, S.Seq):
         ss = S.SetOf(s.elem)
-        x = s.elem.fresh('x')
-        return V(ss, z3.Lambda([x], s.contains(v.t, x)))
+        # a named function of the sequence (congruence: the same sequence gives the same
+        # set term), defined by: x in elems(q) <=> x occurs in q
+        key = 'elems_' + S._mangle(s.name)
+        cache = self.theory.__dict__.setdefault('_elems', {})
+        if key not in cache:
+          f = z3.Function(key, s.z3(), ss.z3())
+          q = s.fresh('q')
+          x = s.elem.fresh('x')
+          self.theory.axioms.append(z3.ForAll(
+              [q, x], z3.Select(f(q), x) == s.contains(q, x), patterns=[z3.Select(f(q), x)]))
+          cache[key] = f
+        return V(ss, cache[key](v.t))
       if isinstance(s, S.DictOf):
         return V(S.SetOf(s.key), s.dom(v.t))
     raise Unsupported('set(%r)' % (v,))
